@@ -226,7 +226,7 @@ def gmode(func, args, kwargs, SymTensor, from_arr, to_real_fn, limit=None):
     flat_in, in_spec = tree_flatten((args, kwargs))
     tens_pos = [i for i, x in enumerate(flat_in) if isinstance(x, SymTensor)]
     from torch.utils._pytree import tree_unflatten
-    if n > 1 and str(func) not in NO_VMAP:
+    if n > 1 and str(func) in VMAP_OK and str(func) not in NO_VMAP:
         def call(*ts):
             fl = list(flat_in)
             for i, t in zip(tens_pos, ts):
@@ -291,6 +291,9 @@ def gmode(func, args, kwargs, SymTensor, from_arr, to_real_fn, limit=None):
 
 
 NO_VMAP = set()
+# torch.vmap over raw ATen overloads can crash the interpreter for some ops (seen: segfault inside the min-sum decoder's
+# gather/masked_select chain), so batching through vmap is limited to ops observed to be safe; everything else loops
+VMAP_OK = {"aten.index.Tensor", "aten.argmin.default", "aten.argmax.default", "aten.abs.default", "aten.sum.default", "aten.mean.default", "aten.any.default", "aten.all.default"}
 
 
 def _unused():
